@@ -87,6 +87,12 @@ def mechanism(e, arg=None):
     return None
 
 
+DEGENERATE = ["</>", "</ >", "</\t>", "<>", "< >", "</", "<", "<//>", "</ />",
+              "%", "% ", "%define", "%define ", "%include", "%import  ", "()",
+              ")", "(", "$", "=", "</ a>", "</a b>", "</a/>", "<a", "a>",
+              "<a b c>", "<a  >", "< a>", "<a/ b>", "<a b/c/>"]
+
+
 def mutate_string(rng, s, n=None):
     kinds = []
     for _ in range(n or rng.randint(1, 4)):
@@ -135,10 +141,15 @@ def mutate_string(rng, s, n=None):
             elif op < 0.7:
                 lines.insert(i, lines[i])
                 kinds.append("ldup")
-            elif len(lines) > 1:
+            elif op < 0.85 and len(lines) > 1:
                 j = rng.randrange(len(lines))
                 lines[i], lines[j] = lines[j], lines[i]
                 kinds.append("lswap")
+            else:
+                # a degenerate line: what is left of a header, closer,
+                # directive or key after its body was deleted
+                lines.insert(i, rng.choice(DEGENERATE))
+                kinds.append("lshell")
             s = "\n".join(lines)
     return s, kinds
 
